@@ -14,7 +14,7 @@ namespace TF.Driver
 open TF TF.Engine TF.InterpSpec
 
 /-- The largest fragment for which `interp_eq_spec_F<n>` is proved. -/
-def provedUpTo : Nat := 1
+def provedUpTo : Nat := 2
 
 def handleC01Hyps : Handler
   | "hyps-c01", [schema, data, _text, tree, args] => do
